@@ -1,2 +1,31 @@
-(* C06 — partial evaluation (placeholder statement file; soundness theorem under construction). *)
-From Cedar Require Import Lang.Value Lang.Expr Impl.Eval Impl.Partial.
+(* C06 — partial evaluation is sound for every completion of the unknowns.
+   partial / partial_policy = model of internal/eval/partial.go (Impl/Partial.v).  Proofs: Proofs/PartialProofs.v. *)
+From Coq Require Import List Bool.
+From Cedar Require Import Lang.Value Lang.Expr Impl.Eval Impl.Partial Proofs.PartialProofs.
+
+(* expressions: a fully evaluated result is the value of the expression under EVERY completion (modulo substituting the unknowns
+   it still contains); a residual or a kept original evaluates like the original; a reported error means the original fails;
+   req = same value, or both fail (the error KIND may differ: tryPartial reports the first error it meets, the evaluator the first it reaches) *)
+Theorem C06_partial_expr_sound : forall en s e,
+  store_clean en -> env_wf en -> expr_clean e -> no_ignore en -> completes s en ->
+  let en' := subst_env s en in
+  match partial en e with
+  | PNode (ELit v) => eval en' e = Ok (subst_val s v)
+  | PNode n => req (eval en' n) (eval en' e)
+  | PVar n => req (eval en' n) (eval en' e)
+  | PErr k => exists k', eval en' e = Err k'
+  | PIgnore => False
+  end.
+Proof. exact partial_expr_sound. Qed.
+
+(* policies: kept => the residual is satisfied exactly when the original is; dropped => the original is never satisfied *)
+Theorem C06_partial_policy_sound : forall en s p,
+  store_clean en -> env_wf en -> policy_clean p -> no_ignore en -> completes s en ->
+  match partial_policy en p with
+  | Some r => sat (subst_env s en) r = sat (subst_env s en) p
+  | None => sat (subst_env s en) p = false
+  end.
+Proof. exact partial_policy_sound. Qed.
+
+Print Assumptions C06_partial_expr_sound.
+Print Assumptions C06_partial_policy_sound.
